@@ -395,7 +395,8 @@ def b_copy_(P, s, a, b, c, name):
                 d = P.vals[i]
                 x = gen.clamp_finite(_values(list(d.shape), d.dtype, 4800 + b, 1.0).to(torch.float64) * float(deq(d).abs().max().to(torch.float64) + 1e-3), d.dtype)
                 src_ = x if b % 2 == 0 else quantize_weight(x, d.qtype, d.axis, d._group_size)
-                return dict(f=lambda d, s_: d.copy_(s_), ops=[("p", i), ("x", 0)], extra=[("fresh" if isq(src_) else "plain", src_)], klass="requant", inplace=0)
+                # (a source quantized the same way is COPIED: codes, scales and zero-points arrive unaltered)
+                return dict(f=lambda d, s_: d.copy_(s_), ops=[("p", i), ("x", 0)], extra=[("fresh" if isq(src_) else "plain", src_)], klass="move" if isq(src_) else "requant", inplace=0)
         i = P.pick(s[0], lambda v: isinstance(v, QBytesTensor) and v.ndim >= 1)
         if i is None:
             return None
@@ -496,12 +497,33 @@ def b_inplace(P, s, a, b, c, name):
     if name == "fill_":
         val = [0.0, 0.3, -0.6][c % 3] * float(deq(t).abs().max())
         return dict(f=lambda t: t.fill_(val), ops=[i], klass="requant", inplace=0)
+    if name == "iadd_empty":
+        # a quantized tensor without elements (an empty slice) is still a tensor: updating it in place is a no-op, not an error
+        return dict(f=lambda t: t[0:0].add_(1.0), ops=[i], klass="move")
+    if name in ("t_", "transpose_", "unsqueeze_", "squeeze_"):
+        # in-place shape operations, on a private copy (the pool keeps the original): a transposition that keeps the shape (square
+        # last dims) must work; the others cannot be expressed by a wrapper whose size is fixed (recorded finding)
+        if name == "t_":
+            if t.ndim > 2:
+                return None
+            # (.contiguous(): a wrapper cannot change its strides either; the value is what is compared, in a canonical layout)
+            f = lambda t: t.clone().t_().contiguous()  # noqa: E731
+        elif name == "transpose_":
+            if t.ndim < 2:
+                return None
+            d0, d1 = [(0, 1), (-1, -2), (0, -1)][c % 3]
+            f = lambda t: (t.clone().transpose_(d0, d1) if c % 2 else t.clone().swapaxes_(d0, d1)).contiguous()  # noqa: E731
+        elif name == "unsqueeze_":
+            f = lambda t: t.clone().unsqueeze_(a % (t.ndim + 1))  # noqa: E731
+        else:
+            f = lambda t: t.clone().squeeze_()  # noqa: E731
+        return dict(f=f, ops=[i], klass="requant", shape_change=True)
     if name == "sigmoid_":
         return dict(f=[lambda t: t.sigmoid_(), lambda t: t.tanh_(), lambda t: F.hardtanh(t, inplace=True)][c % 3], ops=[i], klass="requant", inplace=0)
     return None
 
 
-INPLACE = ["relu_", "relu_", "neg_", "zero_", "imul_scalar", "idiv_scalar", "iadd_scalar", "iadd_tensor", "isub_tensor", "imul_tensor", "clamp_", "masked_fill_", "fill_", "sigmoid_"]
+INPLACE = ["iadd_empty", "t_", "transpose_", "unsqueeze_", "squeeze_", "relu_", "relu_", "neg_", "zero_", "imul_scalar", "idiv_scalar", "iadd_scalar", "iadd_tensor", "isub_tensor", "imul_tensor", "clamp_", "masked_fill_", "fill_", "sigmoid_"]
 
 
 def b_scalar(P, s, a, b, c, name):
@@ -968,6 +990,19 @@ def compare(out, tag, klass, res, ref, info):
 
 # ----------------------------------------------------------------------------- interpreter
 
+def _clone_keeping_expansion(cur, v):
+    """independent copy of `cur` that keeps the expanded (stride 0) dimensions of v: an in-place write that torch refuses on v
+    must stay refused on its twin"""
+    size, stride = tuple(v.size()), tuple(v.stride())
+    zero = [i for i, (n, st) in enumerate(zip(size, stride)) if st == 0 and n > 1]
+    if not zero or tuple(cur.shape) != size:
+        return cur.clone()
+    base = cur
+    for i in zero:
+        base = base.narrow(i, 0, 1)
+    return base.clone().expand(size)
+
+
 def strided_twin(q):
     """float tensor with the size/stride the quantized wrapper reports (expanded dims included), filled with its
     dequantized values"""
@@ -1128,7 +1163,9 @@ def run_program(case, mode, out=None):
             elif mode == "c05":
                 shared = (name == "copy_" and all(isinstance(o, QBytesTensor) for o in operands)
                           and operands[0]._data.untyped_storage().data_ptr() == operands[1]._data.untyped_storage().data_ptr())
-                if shared:
+                if r.get("shape_change") and res.type == "NotImplementedError" and tuple(ref.shape) != tuple(operands[0].shape):
+                    out.fail("inplace-shape-change/raises:NotImplementedError", f"{name}: {res.text}")
+                elif shared:
                     # destination and source are logically independent (their float twins do not overlap) but share a payload
                     out.fail("copy_/operands-sharing-payload/raises", f"float program valid but quantized program raises {res.type}: {res.text}")
                 else:
@@ -1165,7 +1202,7 @@ def run_program(case, mode, out=None):
                             continue
                         cur = cut(deq, v)
                         if isinstance(cur, torch.Tensor):
-                            P.twins[j] = cur.clone()
+                            P.twins[j] = _clone_keeping_expansion(cur, v)
                     continue
                 now = cut(deq, v)
                 if isinstance(now, Raised) or not isinstance(now, torch.Tensor) or not _teq(now, before[j]):
@@ -1204,7 +1241,7 @@ def run_program(case, mode, out=None):
                             ok_result = False
                         if r.get("copyop") and isq(operands[0]):
                             move_clause(out, f"{name}/{kinds}", operands[0], x, r.get("dtype_move"))
-                if ok_result and inplace is None:
+                if ok_result and inplace is None and x.numel() > 0:  # (empty results are checked, not fed to later steps)
                     P.add(x, tw if isinstance(tw, torch.Tensor) else deq(x), name, derived=True)
         if anyq:
             fast += 1
